@@ -1639,7 +1639,7 @@ static void exec_mpi(Plan const& p, Report& rep)
     }
 
     // P = 1 must reproduce the serial integrator's text exactly
-    if (P == 1 && p.stop < 0 && split == 0)
+    if (P == 1 && p.stop < 0 && split == 0 && p.variant != 9)
     {
         Plan q = p;
         q.P = 0;
